@@ -246,7 +246,7 @@ def observe(d, state, cid_label='x'):
     return out
 
 
-MUTATIONS = ['update_components', 'update_components-2', 'update_values_same_shape', 'update_values_new_shape', 'move_to', 'noop-update']
+MUTATIONS = ['update_components', 'update_components-2', 'update_values_same_shape', 'update_values_new_shape', 'move_to', 'noop-update', 'update_components-same-buffer']
 
 
 def apply_mutation(d, state, mut, rng):
@@ -256,6 +256,12 @@ def apply_mutation(d, state, mut, rng):
         d.update_components({d.id['x']: np.array([6., 5., 4., 3., 2., 1.])[:n]})
     elif mut == 'update_components-2':
         d.update_components({d.id['y']: np.array([1., 1., 1., 9., 9., 9.])[:n], d.id['x']: np.array([3., 3., 3., 0., 0., 0.])[-n:]})
+    elif mut == 'update_components-same-buffer':
+        # the caller keeps the buffer it handed over, edits it in place and announces the change by passing it again
+        buf = np.array(d['x'], dtype=float)
+        d.update_components({d.id['x']: buf})
+        buf[:] = buf[::-1] + 0.5
+        d.update_components({d.id['x']: buf})
     elif mut == 'noop-update':
         try:
             d.update_components({d.id['x']: np.array([9., 8., 7., 6., 5., 4.])[:n], d.id['y']: np.array([1., 2.])})
